@@ -363,8 +363,11 @@ def model_from_raw(raw):
             roles[lit] = {}
     for prefix, mult in raw['pats']:
         roles[prefix + ('[0-9]+' if mult == 'many' else '[0-9]')] = {}
-    kw = dict(roles=roles, normalizations={k: v for k, v in raw['norm']},
-              reifications=[tuple(x) for x in raw['reifs']])
+    reifs = [tuple(x) for x in raw['reifs']]
+    # the reifications argument is documented as an iterable: every other model is given a one-shot iterator, not a list
+    if zlib.crc32(_json.dumps(raw, sort_keys=True).encode()) % 2:
+        reifs = iter(reifs)
+    kw = dict(roles=roles, normalizations={k: v for k, v in raw['norm']}, reifications=reifs)
     if raw.get('noop'):
         return _noop.NoOpModel(**kw)
     return Model(**kw)
@@ -845,6 +848,12 @@ def _start_graph(node, m, start):
         g = Graph(list(g.triples), top=g.top)
     if start.get('top'):
         g.top = start['top']
+    if start.get('copied') == 'deepcopy':
+        g = copy.deepcopy(g)
+    elif start.get('copied') == 'pickle':
+        g = pickle.loads(pickle.dumps(g))
+    elif start.get('copied') == 'minus-nothing':
+        g = g - Graph([('no', ':such', 'triple')])
     return g
 
 
@@ -852,7 +861,9 @@ _OPS = {'reify_edges': lambda g, m: transform.reify_edges(g, m), 'dereify_edges'
         'reify_attributes': lambda g, m: transform.reify_attributes(g), 'indicate_branches': lambda g, m: transform.indicate_branches(g, m)}
 
 
-def tr_program(node, ops, model='default', mdl=None, start=None):
+def tr_program(node, ops, model='default', mdl=None, start=None, between=None):
+    """between: what happens to every intermediate graph before the next transformation sees it - nothing, a deep copy, or a
+    pickle round trip (a graph that was stored, sent to a worker, or combined with | and - is an equal graph)."""
     m = get_model(model, mdl)
     warm_model(m, _node_roles(node), 'tr_program')
     g = _start_graph(node, m, start)
@@ -867,6 +878,10 @@ def tr_program(node, ops, model='default', mdl=None, start=None):
             st['enc'] = {'ok': False, 'exc': 'not run', 'tree': {'top': ab.NULL, 'br': [], 'meta': []}, 're': {'ok': False, 'exc': ''}, 'g2': {'top': ab.NULL, 'tr': []}}
             t['steps'].append(st)
             break
+        if between == 'deepcopy':
+            h = copy.deepcopy(h)
+        elif between == 'pickle':
+            h = pickle.loads(pickle.dumps(h))
         st['g'] = _g3(h)
         st['enc'] = _enc(h, m)
         t['steps'].append(st)
